@@ -22,6 +22,33 @@ def elem_names(prefix, shape):
     return [prefix + "".join("_%d" % i for i in idx) for idx in np.ndindex(*shape)]
 
 
+_MISSING = object()
+
+
+def gradof(t):
+    """the gradient array a tensor holds (None if none).  The pinned tree keeps it in ``_grad``; if that private name is
+    gone the public ``.grad`` property is used (its warning about non-leaf tensors is swallowed)."""
+    g = getattr(t, "_grad", _MISSING)
+    if g is not _MISSING:
+        return g
+    import io
+    import contextlib
+    with contextlib.redirect_stdout(io.StringIO()):
+        gt = t.grad
+    return None if gt is None else gt.data
+
+
+def set_grad(t, arr):
+    """put a gradient array on a tensor (harness pre-states: stale buffers, arbitrary accumulated values)"""
+    if hasattr(t, "_grad"):
+        t._grad = arr
+    elif arr is None:
+        t.grad = None
+    else:
+        t.grad = T()(arr)
+
+
+
 class Inp:
     """one tensor input of an op"""
 
@@ -187,7 +214,7 @@ class OpCase:
                 again.append((oo, h))
             gs = gs + again
         out.vjp = dict(outs=[oo.data for oo, _ in gs], gs=[g for _, g in gs],
-                       inputs=[(sp.label, t.data, t._grad, t.requires_grad) for sp, t in zip(specs, ts)])
+                       inputs=[(sp.label, t.data, gradof(t), t.requires_grad) for sp, t in zip(specs, ts)])
         out.notes["names"] = names
         return out
 
@@ -251,7 +278,7 @@ class OpCase:
         # a bystander outside the graph, with data and an accumulated gradient
         by = Tn(env.arr("by", (2,), np.float32), requires_grad=True)
         by_grad = env.arr("bygrad", (2,), np.float32)
-        by._grad = by_grad
+        set_grad(by, by_grad)
         white = set(self.opdef.documented_inplace(self.args))
         watch = [("operand " + sp.label, t.data) for sp, t in zip(specs, ts) if sp.label not in white]
         watch += [("bystander data", by.data), ("bystander grad", by_grad)]
@@ -283,9 +310,9 @@ class OpCase:
         for sp, t, a in zip(specs, ts, arrays):
             if sp.label not in white:
                 out.fact("operand %s keeps its array" % sp.label, t.data is a)
-            if t._grad is not None:
+            if gradof(t) is not None:
                 out.fact("grad(%s) does not share memory with a seed gradient" % sp.label,
-                         not any(np.shares_memory(ar.unwrap(t._grad), ar.unwrap(g)) for _, _, g, _ in seeds))
+                         not any(np.shares_memory(ar.unwrap(gradof(t)), ar.unwrap(g)) for _, _, g, _ in seeds))
         # accumulate once more into the leaves: the caller's seed must still be untouched
         o2 = self.opdef.forward(self.args, ts, self.opdef.extra(self.args, env) if False else extra)
         if self.opdef.deterministic(self.args):
@@ -342,7 +369,7 @@ class OpCase:
             out.fact(sp.label + ":grad", str(gr.dtype) == str(t.dtype) and tuple(gr.shape) == tuple(t.shape),
                      ".grad dtype %s shape %s for a %s tensor of shape %s (upstream gradient %s)" % (
                          gr.dtype, tuple(gr.shape), t.dtype, tuple(t.shape), gdtype))
-            out.notes["obs:grad(%s)" % sp.label] = t._grad
+            out.notes["obs:grad(%s)" % sp.label] = gradof(t)
         return out
 
 
